@@ -262,7 +262,7 @@ package tags
 //@ requires wvalid: is(w, *render.trimWriter) ==> valid(as(w, *render.trimWriter))
 //@ nocapture
 //@ expect func(w io.Writer, ctx render.Context) error
-//@ props C10 C01 C03 C04
+//@ props C10 C07 C01 C03 C04
 //@ panics nothing
 //@ requires args: w != nil && ctx != nil && forall(k, 0, len(branches), branches[k].body != nil)
 //@ ghost evals Int = 0
@@ -282,7 +282,9 @@ package tags
 //@ loop 1 invariant lastFalsy: laste == nil && (evals > 0 ==> lastv == nil || lastv == box(false))
 //@ ensures atMostOne: rendered <= 1
 //@ ensures noneWhenAllFalsy: rendered == 0 && result == nil ==> falsy == len(branches) && evals == len(branches)
-//@ ensures evalError: laste != nil ==> result == laste && rendered == 0
+// a failing condition is reported at its own branch's tag (the if, or the elsif clause): C07
+//@ at call WrapError #1 before assert atBranch: arg0 == laste && laste != nil && arg1 == box(branches[evals-1].body, *render.BlockNode)
+//@ ensures evalError: laste != nil ==> result != nil && rendered == 0
 //@ ensures truthyRendered: laste == nil && lastv != nil && lastv != box(false) && evals > 0 ==> rendered == 1
 
 //@ interface tags.caseInterpreter
@@ -295,9 +297,10 @@ package tags
 //@ requires wvalid: is(w, *render.trimWriter) ==> valid(as(w, *render.trimWriter))
 //@ nocapture
 //@ expect func(w io.Writer, ctx render.Context) error
-//@ props C10 C01 C03 C04
+//@ props C10 C07 C01 C03 C04
 //@ panics nothing
 //@ requires args: w != nil && ctx != nil && forall(k, 0, len(cases), cases[k] != nil && cases[k].body() != nil)
+//@ at call WrapError #1 before assert atClause: arg0 == laste && laste != nil && arg1 == box(cases[tests-1].body(), *render.BlockNode)
 //@ ghost tests Int = 0
 //@ ghost misses Int = 0
 //@ ghost rendered Int = 0
